@@ -1,5 +1,170 @@
-/- C20 — property theorems (to be written). -/
-import SoundeventModel.Basic
+/-
+  C20 — Rasterisation marks exactly the bins a geometry covers, on the template's axes.
+  Property theorems only (helper lemmas live in Proofs/Lemmas/Raster.lean, Proofs/Lemmas/Axis.lean).
+-/
+import SoundeventModel.Raster
+import Proofs.Lemmas.Axis
+import Proofs.Lemmas.Raster
 namespace SE.Proofs.C20
+open SE SE.Axis SE.Raster
+
+/-! ## which bins a box covers -/
+
+/-- a cell's centre lies in the index-space box iff the cell lies between the start bin
+    (inclusive) and the end bin (exclusive) on each axis; a box whose start and end fall into the
+    same bin covers nothing -/
+theorem C20_box_bins (b : IBox) (i j : Nat) :
+    covered b i j = true ↔ (b.ix0 ≤ i ∧ i < b.ix1) ∧ (b.iy0 ≤ j ∧ j < b.iy1) := by
+  simp only [covered, decide_eq_true_eq, natCast_le_add_half, add_half_le_natCast]
+  constructor <;> intro h <;> grind
+
+/-- the start / end bin of a box is the bin containing that coordinate: inside the axis range the
+    unique `b` with `coords[b] ≤ v < coords[b+1]` (the last bin at the upper edge); below the axis
+    bin `0`, above it the axis size (one past the last bin, so that a box reaching beyond the axis
+    covers the last bin and a box wholly beyond it covers nothing) -/
+theorem C20_bin_of_start (coords : List Rat) (v : Rat) (hs : Sorted coords) (hne : coords ≠ []) :
+    (v < coords.head hne → binOf coords v = 0) ∧
+    (coords.getLast hne < v → binOf coords v = coords.length) ∧
+    (coords.head hne ≤ v → v ≤ coords.getLast hne →
+      ∃ hb : binOf coords v < coords.length, coords[binOf coords v] ≤ v ∧
+        (∀ h : binOf coords v + 1 < coords.length, v < coords[binOf coords v + 1])) := by
+  have hlen : 0 < coords.length := List.length_pos_iff.mpr hne
+  refine ⟨?_, ?_, ?_⟩
+  · intro h; simp [binOf_sorted coords v hs hne, h]
+  · intro h
+    have hfl : coords.head hne ≤ coords.getLast hne := by
+      rw [List.getLast_eq_getElem]; exact sorted_head_le hs hne _ (by omega)
+    have h1 : ¬ v < coords.head hne := by grind
+    have h2 : v > coords.getLast hne := h
+    simp [binOf_sorted coords v hs hne, h1, h2]
+  · intro hlo hhi
+    have h1 : ¬ v < coords.head hne := by grind
+    have h2 : ¬ v > coords.getLast hne := by grind
+    have h0 : 0 < countLE coords v := by
+      rw [lt_countLE_iff hs v 0 hlen, ← List.head_eq_getElem]; exact hlo
+    have hle := countLE_le_length coords v
+    simp only [binOf_sorted coords v hs hne, h1, h2, if_false]
+    refine ⟨by omega, (lt_countLE_iff hs v _ (by omega)).mp (by omega), ?_⟩
+    intro h
+    have hnot : ¬ (countLE coords v - 1 + 1 < countLE coords v) := by omega
+    exact Rat.not_le.mp (mt (lt_countLE_iff hs v _ h).mpr hnot)
+
+/-- the covered bins in terms of the axis coordinates: bin `i` of a sorted axis lies between the
+    start bin of `s` (inclusive) and the end bin of `e` (exclusive) iff its right edge
+    `coords[i+1]` lies in `(s, e]`; the last bin, which has no right edge, iff `s ≤ last < e` -/
+theorem C20_bins_by_coordinates (coords : List Rat) (s e : Rat) (hs : Sorted coords) (hne : coords ≠ [])
+    (i : Nat) (hi : i < coords.length) :
+    (binOf coords s ≤ i ∧ i < binOf coords e) ↔
+      (if h : i + 1 < coords.length then s < coords[i + 1] ∧ coords[i + 1] ≤ e
+       else s ≤ coords.getLast hne ∧ coords.getLast hne < e) := by
+  have h1 := binOf_le_iff coords s hs hne i hi
+  have h2 := binOf_le_iff coords e hs hne i hi
+  have h3 : i < binOf coords e ↔ ¬ binOf coords e ≤ i := by omega
+  rw [h1, h3, h2]
+  split <;> simp [Rat.not_lt, Rat.not_le]
+
+/-! ## overwrite order and fill -/
+
+/-- every cell of the raster holds the value of the last box (in list order) covering it, or the
+    fill value when no box covers it -/
+theorem C20_cell_value (nx ny : Nat) (boxes : List IBox) (fill : Int) (i j : Nat) (hi : i < nx) (hj : j < ny) :
+    cell (rasterBoxes nx ny boxes fill) i j =
+      some (match boxes.reverse.find? (fun b => covered b i j) with
+            | some b => b.val
+            | none => fill) := by
+  simp only [rasterBoxes, cell_foldl_burn, cell_replicate nx ny fill i j hi hj, Option.map_some,
+    foldl_overwrite]
+  rfl
+
+/-- later geometries overwrite earlier ones: appending a box sets exactly its cells to its value
+    and leaves every other cell as it was -/
+theorem C20_last_wins (nx ny : Nat) (boxes : List IBox) (b : IBox) (fill : Int) (i j : Nat)
+    (hi : i < nx) (hj : j < ny) :
+    cell (rasterBoxes nx ny (boxes ++ [b]) fill) i j =
+      if covered b i j then some b.val else cell (rasterBoxes nx ny boxes fill) i j := by
+  rw [C20_cell_value nx ny _ fill i j hi hj, C20_cell_value nx ny boxes fill i j hi hj]
+  simp only [List.reverse_append, List.reverse_cons, List.reverse_nil, List.nil_append,
+    List.cons_append, List.find?_cons]
+  by_cases hc : covered b i j = true <;> simp [hc]
+
+/-- a cell no geometry covers holds the fill value -/
+theorem C20_untouched_fill (nx ny : Nat) (boxes : List IBox) (fill : Int) (i j : Nat) (hi : i < nx)
+    (hj : j < ny) (h : ∀ b ∈ boxes, covered b i j = false) :
+    cell (rasterBoxes nx ny boxes fill) i j = some fill := by
+  rw [C20_cell_value nx ny boxes fill i j hi hj]
+  have : boxes.reverse.find? (fun b => covered b i j) = none := by
+    rw [List.find?_eq_none]
+    intro b hb; simp [h b (List.mem_reverse.mp hb)]
+  rw [this]
+
+/-! ## axes, values -/
+
+/-- the result is labelled with the template's time and frequency coordinates, in that order, and
+    has `nt` rows of `nf` cells — for either dimension order of the template (the model does not
+    read the template's contents at all), and the whole result is the same for both orders -/
+theorem C20_axes (t : Template) (geoms : List RGeom) (values : Values) (fill : Int) (at' : Bool) :
+    (∀ r, rasterize t geoms values fill at' = .ok r →
+      r.time = t.time ∧ r.freq = t.freq ∧ r.grid.length = t.time.length ∧
+      ∀ row ∈ r.grid, row.length = t.freq.length) ∧
+    rasterize { t with timeFirst := !t.timeFirst } geoms values fill at' = rasterize t geoms values fill at' := by
+  constructor
+  · intro r h
+    simp only [rasterize] at h
+    split at h
+    · simp at h
+    · cases h
+      exact ⟨rfl, rfl, (rasterBoxes_shape _ _ _ _).1, (rasterBoxes_shape _ _ _ _).2⟩
+  · simp only [rasterize]
+    split
+    · rfl
+    · rfl
+
+/-- a value list whose length differs from the geometry list is rejected, and only that -/
+theorem C20_values_length_rejected (t : Template) (geoms : List RGeom) (vs : List Int) (fill : Int) (at' : Bool) :
+    (vs.length ≠ geoms.length → rasterize t geoms (.many vs) fill at' = .error .invalid) ∧
+    (vs.length = geoms.length → ∃ r, rasterize t geoms (.many vs) fill at' = .ok r) := by
+  constructor
+  · intro h; simp [rasterize, expandValues, h]
+  · intro h; simp [rasterize, expandValues, h]
+
+/-- a single value stands for that value repeated for every geometry (never rejected) -/
+theorem C20_scalar_value (t : Template) (geoms : List RGeom) (v : Int) (fill : Int) (at' : Bool) :
+    rasterize t geoms (.one v) fill at' = rasterize t geoms (.many (List.replicate geoms.length v)) fill at' ∧
+    ∃ r, rasterize t geoms (.one v) fill at' = .ok r := by
+  constructor
+  · rfl
+  · simp [rasterize, expandValues]
+
+/-- the statement the polygon monitor evaluates on the real output ("a cell is burnt iff its centre
+    lies inside the index-space polygon by the even–odd rule, cells whose centre is on the boundary
+    left open") specialises, on the ring of a proper integer-cornered box, to the box rule
+    `covered`: no cell centre lies on the boundary, and centre-inside = `covered` -/
+theorem C20_box_centre_rule (b : IBox) (i j : Nat) (hx : b.ix0 < b.ix1) (hy : b.iy0 < b.iy1) :
+    onBoundary [boxRing b] ((i : Rat) + 1 / 2, (j : Rat) + 1 / 2) = false ∧
+    insideRings [boxRing b] ((i : Rat) + 1 / 2, (j : Rat) + 1 / 2) = covered b i j := by
+  have hyr : (b.iy0 : Rat) < (b.iy1 : Rat) := Rat.natCast_lt_natCast.mpr hy
+  constructor
+  · have a1 := add_half_ne_natCast b.ix0 i
+    have a2 := add_half_ne_natCast b.ix1 i
+    have a3 := add_half_ne_natCast b.iy0 j
+    have a4 := add_half_ne_natCast b.iy1 j
+    simp only [onBoundary, boxRing, ringEdges, List.any_cons, List.any_nil, onSegment, Bool.or_false]
+    simp
+    refine ⟨?_, ?_, ?_, ?_⟩ <;> intro _ <;> grind
+  · simp only [insideRings, boxRing, ringEdges, List.map_cons, List.map_nil, List.foldl_cons, List.foldl_nil,
+      ← List.countP_eq_length_filter, List.countP_cons, List.countP_nil, crosses_horizontal,
+      crosses_vertical_up _ _ _ _ _ hyr, crosses_vertical_down _ _ _ _ _ hyr, covered]
+    simp only [natCast_le_add_half, add_half_le_natCast, add_half_lt_natCast]
+    by_cases g1 : i < b.ix0 <;> by_cases g2 : i < b.ix1 <;> by_cases g3 : b.iy0 ≤ j <;> by_cases g4 : b.iy1 ≤ j <;>
+      simp [g1, g2, g3, g4] <;> omega
+
+-- non-vacuity
+example : binOf [0, 1/4, 1/2, 3/4] (3/10) = 1 := by decide +kernel
+example : binOf [0, 1/4, 1/2, 3/4] 2 = 4 := by decide +kernel
+example : rasterBoxes 3 2 [⟨0, 0, 2, 1, 5⟩, ⟨1, 0, 3, 2, 7⟩] 0 = [[5, 0], [7, 7], [7, 7]] := by decide +kernel
+example : rasterize ⟨true, [0, 1/4, 1/2, 3/4], [0, 100, 200]⟩ [.box (1/4) 100 (3/4) 300] (.one 1) 0 false
+    = .ok ⟨[0, 1/4, 1/2, 3/4], [0, 100, 200], [[0, 0, 0], [0, 1, 1], [0, 1, 1], [0, 0, 0]]⟩ := by decide +kernel
+example : rasterize ⟨false, [0], [0]⟩ [.interval 0 1] (.many []) 0 false = .error .invalid := by decide +kernel
+example : centreRuleViolations 2 2 [boxRing ⟨0, 0, 1, 2, 1⟩] [[true, true], [false, false]] = [] := by decide +kernel
 
 end SE.Proofs.C20
